@@ -1,7 +1,7 @@
 (* C15 — correspondence / property evaluation on what was observed on the
    implementation (harness/cmd/c15).  Executable only. *)
 From Coq Require Import List ZArith Bool.
-From GZ Require Export Lib.CheckLib C15.Model C15.Cluster C15.Conc.
+From GZ Require Export Lib.CheckLib C15.Model C15.Cluster C15.Conc C15.Repr.
 From GZgen Require Import C15Consts.
 Import ListNotations.
 Open Scope Z_scope.
@@ -443,12 +443,57 @@ Definition prop_ok_k (c : kcase) : bool :=
   | [] => false
   end.
 
+(* ==== node identity: lang.Repr, the ring's repr / innerRepr / virtual-node strings (harness/cmd/c15/repr.go) ====
+   Observed through a recording hash.Func: the byte strings the ring itself hashes for a value v —
+   repr(v) and innerRepr(v) during Get on a shared slot, repr(v)+itoa(i) during Add(v) and during
+   Remove(v) — and lang.Repr(v) asked directly after all other values were evaluated. *)
+Record pval := mkPval
+  { pv : gval;
+    p_get : list Z;                      (* what Get hashed first: repr(v) *)
+    p_direct : list Z;                   (* lang.Repr(v), evaluated again at the end *)
+    p_inner : list Z;                    (* what Get hashed second: innerRepr(v) *)
+    p_adds : list (Z * list Z);          (* (i, the i-th string Add(v) hashed) *)
+    p_rems : list (Z * list Z) }.        (* (i, the i-th string Remove(v) hashed) *)
+
+Definition vnode_text (v : gval) (i : Z) : list Z := repr_model v ++ dec i.
+
+Definition pval_agrees (e : pval) : bool :=
+  zs_eqb (repr_model (pv e)) (p_get e) && zs_eqb (repr_model (pv e)) (p_direct e) &&
+  match inner_model prime (pv e) with Some s => zs_eqb s (p_inner e) | None => true end &&
+  forallb (fun it => zs_eqb (vnode_text (pv e) (fst it)) (snd it)) (p_adds e) &&
+  forallb (fun it => zs_eqb (vnode_text (pv e) (fst it)) (snd it)) (p_rems e).
+
+Definition agrees_p (l : list pval) : bool := forallb pval_agrees l.
+
+(* the property's side: node identity is a FUNCTION of the value, the same wherever it is evaluated
+   (Get, Add, Remove, lang.Repr directly, again later), values the specification identifies /
+   distinguishes are identified / distinguished by the implementation, Remove hashes exactly the
+   strings Add hashed (or a removed node stays in the ring) and different indices give different strings *)
+Fixpoint all_pairs {A} (f : A -> A -> bool) (l : list A) : bool :=
+  match l with
+  | [] => true
+  | x :: l' => forallb (f x) l' && all_pairs f l'
+  end.
+
+Definition pval_ok (e : pval) : bool :=
+  zs_eqb (p_get e) (p_direct e) &&
+  list_eqb (fun a b => (fst a =? fst b) && zs_eqb (snd a) (snd b)) (p_adds e) (p_rems e) &&
+  all_pairs (fun a b => negb (zs_eqb (snd a) (snd b))) (p_adds e) &&
+  forallb (fun it => zs_eqb (firstn (length (p_get e)) (snd it)) (p_get e)) (p_adds e).
+
+Definition prop_ok_p (l : list pval) : bool :=
+  forallb pval_ok l &&
+  all_pairs (fun a b => Bool.eqb (zs_eqb (repr_model (pv a)) (repr_model (pv b))) (zs_eqb (p_get a) (p_get b))) l.
+
+Definition model_obs_p (l : list pval) : list (list Z) :=
+  flat_map (fun e => [repr_model (pv e); match inner_model prime (pv e) with Some s => s | None => [] end]) l.
+
 (* ==== the case type evaluated by the runner ==================================================== *)
-Inductive case := RingCase (c : rcase) | UserCase (u : ucase) | ConcCase (k : kcase).
+Inductive case := RingCase (c : rcase) | UserCase (u : ucase) | ConcCase (k : kcase) | ReprCase (l : list pval).
 
 Definition agrees (c : case) : bool :=
-  match c with RingCase c => agrees_r c | UserCase u => agrees_u u | ConcCase k => agrees_k k end.
+  match c with RingCase c => agrees_r c | UserCase u => agrees_u u | ConcCase k => agrees_k k | ReprCase l => agrees_p l end.
 Definition prop_ok (c : case) : bool :=
-  match c with RingCase c => prop_ok_r c | UserCase u => prop_ok_u u | ConcCase k => prop_ok_k k end.
+  match c with RingCase c => prop_ok_r c | UserCase u => prop_ok_u u | ConcCase k => prop_ok_k k | ReprCase l => prop_ok_p l end.
 Definition model_obs (c : case) : list (list Z) :=
-  match c with RingCase c => model_obs_r c | UserCase u => model_obs_u u | ConcCase k => model_obs_k k end.
+  match c with RingCase c => model_obs_r c | UserCase u => model_obs_u u | ConcCase k => model_obs_k k | ReprCase l => model_obs_p l end.
